@@ -335,7 +335,7 @@ func propC02(w *World, r *Report) {
 	} else {
 		r.Check(n > 0, "P3", "successful start => history + trigger frame written in the same call", "-", fmt.Sprintf("%d exit contexts with a successful start", n))
 	}
-	checkSettingsImmutable(w, r, "P1", "RecorderConfig", "ThermalRecorder", "Config") // preview-secs reaches the processor as configured
+	checkSettingsImmutable(w, r, "P1", "RecorderConfig:PreviewSecs", "ThermalRecorder:PreviewSecs", "Config:Recorder") // preview-secs reaches the processor as configured
 }
 
 // ---------------------------------------------------------------------------------------
@@ -434,25 +434,50 @@ func propC03(w *World, r *Report) {
 	} else {
 		r.Check(n2 > 0, "L2", "every successful start sets the target", "-", fmt.Sprintf("%d exit contexts", n2))
 	}
-	// L6: every recording starts counting from zero: at every start of the motion sink - whatever start/write/stop
-	// failures came before - the written counter is 0 (a stale count would end the next recording early)
+	// L6: every recording starts counting from zero: when the first frame of a newly opened motion recording is counted -
+	// whatever start/write/stop failures came before - the written counter holds 0 (a stale count would end the new
+	// recording early). Decided on the events of the fix-point: the first "+1" store in a call that opened the sink.
 	{
-		starts := eventsOfKind(runs.fault, "sink:StartRecording", roleMotion)
 		key := "nz:" + roles.Written
-		tracked := false
-		for fi := range runs.fault.C.Counter {
-			if runs.fault.C.fieldName(fi) == roles.Written {
-				tracked = true
-			}
-		}
-		if !tracked {
-			r.Fail("L6", "written counter is zero at every start of a recording", "-", "the written counter "+roles.Written+" is never reset to the constant 0: a recording would inherit the previous recording's count", "")
+		fiW := fieldIndex(c.St, roles.Written)
+		name := "written counter is zero when a new recording counts its first frame"
+		if !runs.fault.C.Counter[fiW] {
+			r.Fail("L6", name, "-", "the written counter "+roles.Written+" is never reset to the constant 0: a recording would inherit the previous recording's count", "")
 		} else {
-			okc, bad, ev, n := allCtx(starts, func(cx *Ctx) bool { return cx.Pers[key] == 0 })
-			if okc {
-				r.Check(n > 0, "L6", "written counter is zero at every start of a recording", "-", fmt.Sprintf("%d start contexts over all failure placements", n))
-			} else {
-				r.Fail("L6", "written counter is zero at every start of a recording", w.InstrPos(ev.Instr), "a recording can start while "+roles.Written+" still holds the count of an earlier recording (it would stop before min-secs): "+describeCtx(bad), bad.Trace)
+			var firsts []*Event
+			for _, ev := range runs.fault.sortedEvents() {
+				if ev.Kind == "store" && ev.Field == fiW && ev.Arg == "+1" {
+					firsts = append(firsts, ev)
+				}
+			}
+			n := 0
+			var bad *Ctx
+			var badEv *Event
+			for _, ev := range firsts {
+				for _, cx := range ev.Ctxs {
+					if cx.Ghosts["opened:motion"] == 1 && cx.Ghosts["inc:"+roles.Written] == 1 {
+						n++
+						if cx.Pers[key] != 0 && bad == nil {
+							bad, badEv = cx, ev
+						}
+					}
+				}
+			}
+			for _, cx := range exitCtxs(runs.fault) {
+				if cx.Ghosts["opened:motion"] == 1 && cx.Ghosts["inc:"+roles.Written] == 0 && cx.Sinks[roleMotion] == 1 {
+					n++
+					if cx.Pers[key] != 0 && bad == nil {
+						bad = cx
+					}
+				}
+			}
+			switch {
+			case bad != nil && badEv != nil:
+				r.Fail("L6", name, w.InstrPos(badEv.Instr), "a recording can start while "+roles.Written+" still holds the count of an earlier recording (it would stop before min-secs): "+describeCtx(bad), bad.Trace)
+			case bad != nil:
+				r.Fail("L6", name, "-", "a call opens a recording and returns with "+roles.Written+" still holding the count of an earlier recording: "+describeCtx(bad), bad.Trace)
+			default:
+				r.Check(n > 0, "L6", name, "-", fmt.Sprintf("%d contexts over all failure placements", n))
 			}
 		}
 	}
@@ -515,7 +540,7 @@ func propC03(w *World, r *Report) {
 		}
 	}
 	checkRecorderConfigValidation(w, r, e)
-	checkSettingsImmutable(w, r, "L1", "RecorderConfig", "ThermalRecorder", "Config") // min-secs / max-secs reach the processor as configured
+	checkSettingsImmutable(w, r, "L1", "RecorderConfig:MinSecs|MaxSecs", "ThermalRecorder:MinSecs|MaxSecs", "Config:Recorder") // min-secs / max-secs reach the processor as configured
 }
 
 func storeOrdinal(st *ssa.Store) string {
@@ -779,7 +804,7 @@ func propC04(w *World, r *Report) {
 			r.Unknown("S7", "recorder.NewConfig", "-", "not found")
 		}
 	}
-	checkSettingsImmutable(w, r, "S7", "RecorderConfig", "ThermalRecorder", "Windows", "Location", "Config") // window and min-disk-space as configured
+	checkSettingsImmutable(w, r, "S7", "RecorderConfig:Window", "ThermalRecorder:MinDiskSpaceMB", "Windows", "Location", "Config:Recorder|MinDiskSpace|Motion", "ThermalMotion:TriggerFrames") // window and min-disk-space as configured
 }
 
 // S5 / S6
@@ -1027,6 +1052,7 @@ func propC13(w *World, r *Report) {
 	r.Check(len(ps) >= 1, "G4", "a parse call site exists", "-", fmt.Sprint(len(ps)))
 	checkParsers(w, r, "B1")
 	checkHandleConnBadFrame(w, r)
+	checkSettingsImmutable(w, r, "B1", "ThermalMotion:EdgePixels", "Config:Motion") // the border the parsers tolerate zeros in is the configured edge-pixels
 }
 
 // ---------------------------------------------------------------------------------------
@@ -1195,6 +1221,7 @@ func propC17(w *World, r *Report) {
 	}
 	checkAuxIndependence(w, r, runs, roles)
 	checkAuxWiring(w, r, runs)
+	checkCleanupOnlyAtStartup(w, r, "V4") // no recorder unlinks the in-progress file of the continuous / test recording
 }
 
 // V4: functions that drive the continuous/test sinks store only to fields that the motion path never reads or writes.
